@@ -48,6 +48,10 @@ def sites(arr_field, alias_arr_field=None, inner=None):
         'bool-top': ('BOOL', lambda R: ('bin', 'and', R, ('lit', 'True', True))),
         'bool-not': ('BOOL', lambda R: ('un', 'not', R)),
         'string-eq': ('STRING', lambda R: ('bin', '=', R, ('lit', '"a"', '"a"'))),
+        # the same path twice: first at a loose position, then at a strict one (and the other way round)
+        'loose-then-strict': ('NUMBER', lambda R: ('bin', 'and', ('bin', '=', R, R), ('bin', '>', R, ZERO))),
+        'strict-then-loose': ('NUMBER', lambda R: ('bin', 'and', ('bin', '>', R, ZERO), ('bin', 'in', R, ('set', (R,))))),
+        'loose-then-strict-bool': ('BOOL', lambda R: ('bin', 'and', ('bin', '!=', R, R), ('un', 'not', R))),
         'array-in': ('ARRAY', lambda R: ('bin', 'in', ZERO, R)),
         'array-len': ('ARRAY', lambda R: ('bin', '>', ('call', 'len', (R,)), ZERO)),
         'array-domain': ('ARRAY', lambda R: ('quant', 'forall', 'i', R, ('bin', '>', ('var', 'i'), ZERO))),
@@ -310,7 +314,7 @@ def check_tokens(r):
             if (fresh.min_value, fresh.max_value) != (lo, hi) or fresh.type != HT.DataType.NUMBER:
                 problems.append((f'RangedType.{name.lower()}() has the wrong bounds or type', f'{fresh}'))
     inf = float('inf')
-    grid = (-inf, -1, 0, 1, inf)
+    grid = (-inf, -1, 0, 1, inf, 2 ** 63 - 1, 2 ** 63, 2 ** 64, 2 ** 64 + 1, -(2 ** 63), -(2 ** 63) - 1, 0.5, 1e308)
     for lo in grid:
         for hi in grid:
             r.count('evaluations')
@@ -414,7 +418,7 @@ def replay(w):
 def describe(tier):
     b = bounds(tier)
     return {
-        'rule': f"schemas {list(b['schemas'])}: every valid accessor chain (depth <= {b['path_depth']}, rooted at the current message and at an alias; plus in-range literal indices) and every chain invalid in exactly one way (unknown field, field access on a primitive / array, index on a primitive / message, literal index = length and length + 1) placed at each of up to 16 nesting sites (top level, under not/and, arithmetic, range bound, set element, function argument, quantifier body, quantifier range domain, boolean and string sites, array sites: in / len / quantifier domain, index expression, arithmetic inside an index, index on an inner accessor of a chain, an array of the other message indexed by this message's reference) - sites whose required type differs from the declared one give the type-mismatch cases - and at 5 property positions / 5 alias bindings (incl. aliases bound inside event disjunctions; the aliased message has a different message type); expectation from the independent resolver; the raised error must name the offending field, index or path. Plus leaf_fields / get_type_of / contains_name on every (nested) message of all 6 schemas, the 8 predefined integer tokens, and constructor grids (25 min/max pairs, 6 array lengths, 15 enumerated-value combinations, all 128 type sets for TypeToken).",
+        'rule': f"schemas {list(b['schemas'])}: every valid accessor chain (depth <= {b['path_depth']}, rooted at the current message and at an alias; plus in-range literal indices) and every chain invalid in exactly one way (unknown field, field access on a primitive / array, index on a primitive / message, literal index = length and length + 1) placed at each of up to 16 nesting sites (top level, under not/and, arithmetic, range bound, set element, function argument, quantifier body, quantifier range domain, boolean and string sites, array sites: in / len / quantifier domain, index expression, arithmetic inside an index, index on an inner accessor of a chain, an array of the other message indexed by this message's reference) - sites whose required type differs from the declared one give the type-mismatch cases - and at 5 property positions / 5 alias bindings (incl. aliases bound inside event disjunctions; the aliased message has a different message type); expectation from the independent resolver; the raised error must name the offending field, index or path. Plus leaf_fields / get_type_of / contains_name on every (nested) message of all 6 schemas, the 8 predefined integer tokens, and constructor grids (169 min/max pairs incl. integers beyond 2**53 that differ by one, 6 array lengths, 15 enumerated-value combinations, all 128 type sets for TypeToken).",
         'bounds': {'path_depth': b['path_depth'], 'schemas': len(b['schemas'])},
         'exhaustive': True,
         'assumptions': ['resolver and field-tree walk in hplmc/schemas.py are the reference'],
